@@ -32,7 +32,7 @@ RULE = ('every table of each family (single key + id column with ids DEscending,
         '2 (thorough: 3) parts x header variants {same, extra field, permuted, renamed non-key field} x key '
         '{field, None, index when headers are equal} x reverse x {presorted, not presorted x buffersize {None,1} x '
         'cache} x 2 passes (+ missing= / header= forms in thorough), against the reference sort(cat()) and the '
-        'real sort(cat()).  issorted on every table (>=1 row) x key x reverse x strict and on every default sort '
+        'real sort(cat()).  issorted on every table x key x reverse x strict and on every default sort '
         'output.  states = distinct (table, key, strategy) points; transitions = passes over a real view; a state '
         'is non-trivial when the table has >= 2 rows and sorting must move a row or must keep two equal-key rows '
         'in input order (mergesort: >= 2 non-empty parts and the merge must interleave parts or break a '
@@ -47,7 +47,6 @@ ASSUMPTIONS = [
     'mergesort: key given by field NAME (its docstring) unless all headers are equal; presorted=True with '
     'key=None is enumerated only when the common fields are in the same column order in every input (otherwise '
     '"already sorted lexically" is ambiguous); missing != None only on rectangular inputs',
-    'issorted agreement is enumerated on tables with >= 1 data row (header-only input belongs to C20)',
 ]
 
 _P = {}          # tier parameters, filled by setup()
@@ -320,8 +319,8 @@ def check_table_sorts(acc, famname, hdr, rows, key, level):
                               'sort(%d-row table, key=%r, reverse=%r, buffersize=%r via %s, cache=%r) pass %d: %s'
                               % (n, key, rev, bs, mode, cache, p, sig))
         acc.counters['sort:%s:%s' % (famname, 'chunked' if (bs is not None and bs <= n) else 'memory')] += 1
-    # issorted agreement (tables with >= 1 data row)
-    if n >= 1:
+    # issorted agreement
+    if n >= 0:
         for rev in (False, True):
             acc.evals += 1
             acc.transitions += 1
